@@ -140,11 +140,14 @@ class Run:
 
 
 def write_replay(run, ev, fails, trace):
-    os.makedirs(os.path.join(VERIF, "replays"), exist_ok=True)
+    rdir = os.path.join(VERIF, "replays")
+    if os.environ.get("VERIF_EVIDENCE_DIR"):
+        rdir = os.path.join(os.environ["VERIF_EVIDENCE_DIR"], "replays")
+    os.makedirs(rdir, exist_ok=True)
     body = {"property": run.prop, "clauses": fails, "seed": run.seed, "tier": run.tier,
             "failing_event": trim_event(ev), "trace": trace}
     h = hashlib.sha1(json.dumps([fails, trim_event(ev)], sort_keys=True).encode()).hexdigest()[:12]
-    path = os.path.join(VERIF, "replays", "%s-%s.json" % (run.prop, h))
+    path = os.path.join(rdir, "%s-%s.json" % (run.prop, h))
     with open(path, "w") as f:
         json.dump(body, f)
     return path
@@ -184,8 +187,9 @@ def write_evidence(run, plan_meta, wall, nviol):
         "wall_s": round(wall, 2),
         "violations": nviol,
     }
-    os.makedirs(os.path.join(VERIF, "evidence"), exist_ok=True)
-    with open(os.path.join(VERIF, "evidence", run.prop + ".json"), "w") as f:
+    edir = os.environ.get("VERIF_EVIDENCE_DIR") or os.path.join(VERIF, "evidence")   # redirected only by harness/seeds.py
+    os.makedirs(edir, exist_ok=True)
+    with open(os.path.join(edir, run.prop + ".json"), "w") as f:
         json.dump(ev, f, indent=1)
 
 
